@@ -239,6 +239,39 @@ def two_instances(out):
     return (2 << 12) + n
 
 
+def successor_structure(cls, out):
+    """With a constant random source, the id issued after the one of counter c is the id of counter c+1 - checked at every
+    power-of-two boundary of the 24-bit counter (a shorter period shows as a wrong successor there)."""
+    n = 0
+    srv = _make_server(cls)
+    if not hasattr(srv, 'sequence_number'):
+        return 0
+    src = Source('zero')
+    orig = (secrets.token_bytes, os.urandom)
+    secrets.token_bytes = src.token_bytes
+    os.urandom = src.urandom
+    try:
+        src.got = []
+        for k in range(1, 25):
+            for c in ((1 << k) - 1, (1 << k) - 2, (3 << (k - 1)) - 1 if k < 24 else 0):
+                c &= WRAP - 1
+                a, b = _make_server(cls), _make_server(cls)
+                a.sequence_number = c
+                a.generate_id()
+                nxt = a.generate_id()
+                b.sequence_number = (c + 1) % WRAP
+                want = b.generate_id()
+                n += 3
+                if nxt != want:
+                    out.append(_viol('counter_period_short', cls, 'zero', c, 1,
+                                     'the id issued after counter %#x is %r; the id of counter %#x is %r - the counter does not '
+                                     'advance by one there (period shorter than 2^24)' % (c, nxt, (c + 1) % WRAP, want)))
+                    return n
+    finally:
+        secrets.token_bytes, os.urandom = orig
+    return n
+
+
 def wrap_alignment(cls, out):
     """The id stream must pass through all 2^24 counter values: with a constant random source the ids
     issued from counter W-k (k = 1..4) must reach the id of counter 0 after exactly k issues, and never before."""
@@ -322,6 +355,7 @@ def run(ctx):
     issued += two_instances(out)
     for cls in ('sync', 'async'):
         issued += wrap_alignment(cls, out)
+        issued += successor_structure(cls, out)
     issued += handshake_ids(out)
     for v in out:
         rep.add(v)
@@ -332,7 +366,7 @@ def run(ctx):
         'distinct_nontrivial': windows,
         'rule': 'windows of consecutively issued ids from the real generate_id() of Server and AsyncServer, '
                 'with secrets.token_bytes / os.urandom replaced by adversarial sources {all-zero, all-ff, '
-                'base64-special pattern, period-2, counter-cancelling}; a wrap-alignment test (ids from counter 2^24-k reach the id of counter 0 after exactly k issues); handshakes that present the cookie of an ended session / a forged cookie to servers configured with and without a session cookie (the id must be fresh); sibling instances (server A issues an id, another instance issues 2^24-1 ids, the next id of A must differ); starts %s (quick: windows of 2^18 centred on '
+                'base64-special pattern, period-2, counter-cancelling}; a successor test at every power-of-two boundary of the counter (the id after counter c is the id of counter c+1); a wrap-alignment test (ids from counter 2^24-k reach the id of counter 0 after exactly k issues); handshakes that present the cookie of an ended session / a forged cookie to servers configured with and without a session cookie (the id must be fresh); sibling instances (server A issues an id, another instance issues 2^24-1 ids, the next id of A must differ); starts %s (quick: windows of 2^18 centred on '
                 'them plus 512-id windows at every 8th value of each counter byte; thorough: full 2^24 windows). '
                 'distinct_nontrivial counts windows (source x start x server class).' % [hex(s) for s in starts],
         'samples': [{'server': 'sync', 'source': 'zero', 'start': '0xfe0000', 'count': 1 << 18},
